@@ -208,3 +208,9 @@ claim('C43', 'other',
       'wait loop: True only right after a fresh mismatch computation that returned None, False only after the loop condition failed, elapsed refreshed on every '
       'path to the loop test; _refresh_schema verdict facts and the schema-change future recording it. Snapshot sequences and the clock are not decided',
       'finite-domain guard folding + CFG dataflow with branch facts and freshness state', _TB, 'DESIGN.md section 5 C43')
+
+claim('C44', 'other',
+      'static analysis: branch facts of the three arms of a heartbeat round (dead / idle / busy), closed writer set of the traffic flag, pairing of the capacity unit '
+      '(taken under the lock only when sent, returned under the same connection\'s lock only after a normal wait), derivation of every failure record from the '
+      'future that failed (reaching definitions inside the loop), unconditional defunct+return for each record, decision facts of HeartbeatFuture.wait and its callback',
+      'CFG dataflow with branch facts + lock regions + who-may-write + loop-local reaching definitions', _TB, 'DESIGN.md section 5 C44')
